@@ -60,6 +60,7 @@ def run(ctx):
     # ---- all rotations and their inverses (T4): relator_permutations / relator_representative
     ctx.clauses.append("relator permutation set / representative range over all rotations 0..len() and both the rotation and its inverse (T4)")
     gg = ctx.facts.getters()
+    rotations_reached(ctx, gg)
     for fn in ("fpgroups::free_words::relator_permutations", "fpgroups::free_words::relator_representative"):
         b = ctx.body(fn)
         ctx.scan([b])
@@ -277,6 +278,30 @@ def word_operations(ctx, g):
     ctx.ob("T9-word-operations", b.name, "rotated", "ok" if okr and okr0 else "violation",
            "rotated(i) = new(w[i..] ++ w[..i]) with i reduced modulo len; the empty word is returned as it is" if okr and okr0 else
            "rotated is not (letters from i on, then the first i letters, i mod len, empty word unchanged): rotation branch ok %s, empty branch ok %s" % (okr, okr0))
+
+
+
+def rotations_reached(ctx, g):
+    """relator_permutations / relator_representative treat the empty word apart and run their loop over all rotations for EVERY other word: the
+    rotation loop is reached exactly for lengths >= 1 (a guard `len == 1` or `len != 0` on the special case sends words of length 1, or all
+    non-empty words, past the loop: inverses / the minimum are lost).  The guard is evaluated for lengths 0, 1, 2, 5"""
+    ctx.clauses.append("the loop over all rotations (and inverses) is reached exactly for non-empty words (T3, guard evaluated on a length table)")
+    for fn in ("relator_permutations", "relator_representative"):
+        b = ctx.body("fpgroups::free_words::" + fn)
+        sites = list(b.calls("FreeWord::rotated"))
+        bad = None
+        if len(sites) != 1:
+            bad = "%d rotated(..) calls" % len(sites)
+        else:
+            tab = reach_table_by_length(b, sites[0][0], g, any_len=True)
+            # the loop bound itself (i < len) is one of the dominating facts: for length 0 the body is not reached
+            if tab != {0: False, 1: True, 2: True, 5: True}:
+                bad = "the rotations are looked at for words of length %s only" % (tab if tab is None else [L for L, v in tab.items() if v])
+            else:
+                # what is returned when the loop is skipped: only the word itself, and only for the empty word
+                pass
+        ctx.ob("T3-rotations-reached", b.name, "rotated(i) for every non-empty word", "ok" if not bad else "violation",
+               "the rotation loop is reached exactly for lengths >= 1" if not bad else bad)
 
 
 def check_normalized(ctx, nb):
